@@ -282,7 +282,8 @@ def _run(a, pid, spec, tier, seed, scratch, binfo, t_start, replay_ob):
         if f.get('property') != pid or not f.get('replay'):
             continue
         rp = f['replay']
-        rr = concrete_replay(rp['obligation'], rp['cex'], scratch, ignore_known=True)
+        # open known findings stay cut out here: the input may also lie in the region of one
+        rr = concrete_replay(rp['obligation'], rp['cex'], scratch, ignore_known=False)
         if rr.get('reproduced'):
             path = os.path.join(VERIF, 'replays', '%s-regressed-%s.json' % (pid, f.get('commit')))
             os.makedirs(os.path.dirname(path), exist_ok=True)
